@@ -83,15 +83,34 @@ def run_paths(body, prefix=(), max_depth=None, max_samples=2):
     return out
 
 
-def guarded(fn):
-    """Decorator for path bodies: an Inconclusive raised inside a path is recorded (exit 3), exploration goes on."""
+def guarded(fn, case=None):
+    """Decorator for path bodies.  An Inconclusive raised inside a path is recorded (exit 3) and exploration goes
+    on.  Any other exception escaping from the code under test on this path becomes a counterexample candidate
+    (``case(model, what)`` builds it from a model of the path condition); it is only reported if it reproduces on the
+    real code."""
     from symx import core
+    import traceback
 
     def body():
         try:
             return fn()
         except core.Inconclusive as e:
             return {'cex': [], 'queries': 0, 'inconclusive': [f'{type(e).__name__}: {e}']}
+        except Exception as e:
+            cx = core.ctx()
+            tb = traceback.extract_tb(e.__traceback__)
+            where = f'{tb[-1].filename.rsplit("/", 2)[-1]}:{tb[-1].lineno}' if tb else '?'
+            what = f'exception on this path: {type(e).__name__}: {e} @ {where}'
+            if case is None:
+                return {'cex': [], 'queries': 0, 'inconclusive': [what]}
+            try:
+                del cx.guard[:]
+                mdl = cx.check_fresh(want_model=True)
+            except core.Inconclusive as e2:
+                return {'cex': [], 'queries': 0, 'inconclusive': [f'{what}; then {e2}']}
+            if mdl is None:
+                return {'cex': [], 'queries': 0, 'inconclusive': [what + ' (on an infeasible path)']}
+            return {'cex': [case(mdl, what)], 'queries': 0}
     return body
 
 
